@@ -220,7 +220,7 @@ class Douglas(DiscriminativeModel):
         check_is_fitted(self)
         X = check_array(X)
 
-        if X.shape[1] < len(self.cut_points_list_):
+        if X.shape[1] <= max(feature_index for feature_index, _ in self.cut_points_list_):
             raise ValueError("The passed data has fewer features than the number of cut points expected for the "
                              "Douglas model")
         active_points = []
